@@ -321,11 +321,32 @@ func runC16(r *core.Run) {
 		return nil, false, false, false
 	}
 	quote, qEntry, qMeasOK, qTDX := mkQuote(quoteS)
+	// ---- network ----
+	net := NewSimNet(r)
+	bucketBody := append([]byte("FROM-BUCKET:"), genuine...)
+	net.Objects[SnpURL(meas)] = bucketBody
+	net.Objects[TdxURL(mrtd)] = append([]byte("FROM-BUCKET-TDX:"), genuine...)
+	net.Objects[uri] = append([]byte("FROM-URI-LOCATOR:"), genuine...)
+	// what an empty object name would fetch: the bucket listing
+	net.Objects["https://storage.googleapis.com/gce_tcb_integrity/"] = []byte("<ListBucketResult>...</ListBucketResult>")
+	net.FailAll = getS == "failing"
+
 	var prov *simProvider
 	pEntry, pMeasOK, pTDX := false, false, false
+	// the local quote provider may belong to ANOTHER VM than the supplied quote (a verifier host
+	// examining someone else's attestation): its certificate-table entry is then another endorsement
+	otherVM := quote != nil && r.Chance(40, "provider-is-other-vm?")
+	otherBlob := append([]byte("ENDORSEMENT-OF-THE-LOCAL-VM:"), genuine...)
+	provMeas := meas
 	switch provS {
 	case "ok+entry":
 		raw, e, m, t := mkQuote("raw+certs+entry")
+		if otherVM {
+			otherMeas := bytes.Repeat([]byte{0x77}, 48)
+			provMeas = otherMeas
+			raw = append(rawReport(otherMeas), abi.CertsFromProto(&spb.CertificateChain{VcekCert: vcek(), Extras: map[string][]byte{"9f4116cd-c503-4f5a-8f6f-fb68882f4ce2": otherBlob}}).Marshal()...)
+			net.Objects[SnpURL(otherMeas)] = append([]byte("FROM-BUCKET-OTHER-VM:"), genuine...)
+		}
 		prov, pEntry, pMeasOK, pTDX = &simProvider{r: r, raw: raw}, e, m, t
 	case "ok":
 		raw, e, m, t := mkQuote("raw+certs")
@@ -336,16 +357,6 @@ func runC16(r *core.Run) {
 		raw, e, m, t := mkQuote("tdx-raw")
 		prov, pEntry, pMeasOK, pTDX = &simProvider{r: r, raw: raw}, e, m, t
 	}
-
-	// ---- network ----
-	net := NewSimNet(r)
-	bucketBody := append([]byte("FROM-BUCKET:"), genuine...)
-	net.Objects[SnpURL(meas)] = bucketBody
-	net.Objects[TdxURL(mrtd)] = append([]byte("FROM-BUCKET-TDX:"), genuine...)
-	net.Objects[uri] = append([]byte("FROM-URI-LOCATOR:"), genuine...)
-	// what an empty object name would fetch: the bucket listing
-	net.Objects["https://storage.googleapis.com/gce_tcb_integrity/"] = []byte("<ListBucketResult>...</ListBucketResult>")
-	net.FailAll = getS == "failing"
 
 	// ---- the extraction ----
 	opts := &extract.Options{FirmwareManufacturer: filter, EventLogLocation: logPath, UEFIVariableReader: exel.MakeEfiVarFSReader(efiRoot), Quote: quote, ForceFetch: force}
@@ -414,6 +425,7 @@ func runC16(r *core.Run) {
 		switch {
 		case hasURI && u == uri && logS != "absent" && logS != "unreadable":
 		case measInHand && u == SnpURL(meas):
+		case pMeasOK && !pTDX && prov != nil && u == SnpURL(provMeas):
 		case mrtdInHand && u == TdxURL(mrtd):
 		default:
 			key := "other"
@@ -457,6 +469,19 @@ func runC16(r *core.Run) {
 			want, wantWhat = genuine, "certificate-table entry (provider quote)"
 		}
 	}
+	// A supplied quote with a full-length measurement but no certificate-table entry, no usable
+	// event-log evidence, no forced fetch: discovery is a function of THAT measurement — the bucket
+	// object derived from it — whatever a local quote provider would say about the local VM.
+	if want == nil && !force && quote != nil && qMeasOK && !qEntry && getS == "ok" && !(logUsable && (hasRaw || hasVar || hasURI)) {
+		wantBody := bucketBody
+		if qTDX {
+			wantBody = net.Objects[TdxURL(mrtd)]
+		}
+		if err != nil || !bytes.Equal(out, wantBody) {
+			r.Fail("local-evidence-altered", "supplied-quote-measurement-ignored", "%s: the supplied quote names its measurement, but the result (%d bytes, err %v) is not the bucket object derived from it (provider consulted %d times)", where, len(out), err, provCalls(prov))
+		}
+		r.Probe("fetched-by-supplied-measurement")
+	}
 	if want != nil {
 		r.Probe("local-evidence-present")
 		if len(otherRequests) > 0 {
@@ -470,6 +495,23 @@ func runC16(r *core.Run) {
 	}
 	if err == nil {
 		r.Probe("extracted")
+	}
+	// The same (long-lived) reader resolves a second variable under the same vendor GUID, then the
+	// first again: each read returns that variable's own bytes.
+	if varS == "present" && r.Chance(30, "second-variable?") {
+		second := append([]byte("RIM-of-the-previous-firmware:"), genuine[:64]...)
+		os.WriteFile(filepath.Join(efiRoot, "FirmwareRIMPrev-"+googleGUID), append([]byte{7, 0, 0, 0}, second...), 0o644)
+		rd := opts.UEFIVariableReader
+		for i, step := range []struct {
+			name string
+			want []byte
+		}{{"FirmwareRIM", varData}, {"FirmwareRIMPrev", second}, {"FirmwareRIM", varData}} {
+			got, rerr := rd.ReadVariable(guid, ucs2(step.name))
+			if rerr != nil || !bytes.Equal(got, step.want) {
+				r.Fail("local-evidence-altered", "variable-reread", "read %d through one reader: variable %s returned %d bytes (err %v), its file holds %d", i, step.name, len(got), rerr, len(step.want))
+			}
+		}
+		r.Probe("second-variable-read")
 	}
 	r.State(fmt.Sprintf("%s|%s|%s|%v", logS, quoteS, provS, err == nil))
 
@@ -554,4 +596,11 @@ func c16Events(r *core.Run, a *Party, img *images.Image) {
 		r.Fail("events-do-not-round-trip", "manifest-guid", "the two events carry different manifest GUIDs")
 	}
 	r.Probe("events-round-tripped")
+}
+
+func provCalls(p *simProvider) int {
+	if p == nil {
+		return 0
+	}
+	return p.n
 }
